@@ -4,6 +4,7 @@ pub mod dot;
 pub mod engine;
 pub mod front;
 pub mod fun;
+pub mod fuzzglue;
 pub mod gen;
 pub mod ops;
 pub mod plain;
